@@ -258,6 +258,11 @@ bool prop(Tape &t, Report &R) {
   c.setCellIsFixed(fx);
   c.setCellIsObstruction(ob);
   c.setRows(rows);
+  bool nt = false;
+  int ignored = 0;
+  std::vector<int> hExtra;
+  size_t nExtra = 0;
+  auto judgeNow = [&](const char *when) -> bool {
   int ne = t.weighted({3, 1, 1});
   std::vector<Rectangle> extra;
   for (int i = 0; i < ne; ++i) extra.push_back(genObstacle(t, rows[t.choose(0, (int)rows.size() - 1)], std::max(4, rw)));
@@ -270,7 +275,6 @@ bool prop(Tape &t, Report &R) {
   std::vector<Rectangle> obs = fixedObstacles(c);
   obs.insert(obs.end(), extra.begin(), extra.end());
   // every returned segment belongs to exactly one input row (rows are disjoint)
-  bool nt = false;
   std::vector<std::vector<Row>> per(rows.size());
   for (const Row &g : got) {
     int owner = -1;
@@ -279,14 +283,14 @@ bool prop(Tape &t, Report &R) {
     if (owner < 0) return R.fail("computeRows returned a segment " + rectJson(g) + " inside no row");
     per[owner].push_back(g);
   }
-  int ignored = 0;
+  ignored = 0;
   for (int i = 0; i < n; ++i)
     if (!(fx[i] && ob[i])) ++ignored;
   for (size_t r = 0; r < rows.size(); ++r) {
     std::string err = judgeRow(rows[r], obs, per[r]);
     if (!err.empty()) {
       std::ostringstream s;
-      s << err << " row " << rectJson(rows[r]) << " cells:";
+      s << when << err << " row " << rectJson(rows[r]) << " cells:";
       for (int i = 0; i < n; ++i)
         s << " {" << x[i] << "," << y[i] << " " << w[i] << "x" << h[i] << " o" << (int)ori[i]
           << (fx[i] ? " fixed" : " movable") << (ob[i] ? " obs" : " nonobs") << "}";
@@ -294,18 +298,69 @@ bool prop(Tape &t, Report &R) {
     }
     nt |= nontrivialCase(rows[r], obs);
   }
+  hExtra.clear();
+  for (auto &o : extra) hExtra.push_back(o.minX), hExtra.push_back(o.maxX);
+  nExtra = extra.size();
+  return true;
+  };
+  std::vector<int> hExtra0;
+  size_t nExtra0 = 0;
+  if (!judgeNow("")) return false;
+  hExtra0 = hExtra, nExtra0 = nExtra;
   if (ignored) R.classify("has-ignored-cells");
   if (nt && ignored) {
     Hasher hh;
     hh.addv(w).addv(h).addv(x).addv(y).add(x0).add(y0).add(rw).add(rh);
-    for (auto &o : extra) hh.add(o.minX).add(o.maxX);
+    hh.addv(hExtra0);
     R.classify("nontrivial");
     R.nontrivial(hh.h, [&] {
       std::ostringstream s;
       s << "{\"rows\":" << rows.size() << ",\"cells\":" << n << ",\"ignored_cells\":" << ignored
-        << ",\"extra_obstacles\":" << extra.size() << ",\"first_row\":" << rectJson(rows[0]) << "}";
+        << ",\"extra_obstacles\":" << nExtra0 << ",\"first_row\":" << rectJson(rows[0]) << "}";
       return s.str();
     });
+  }
+  // object history (decided last): the same Circuit object is modified through its
+  // public setters and asked again; the answer must match the new contents
+  int steps = t.weighted({2, 1, 1, 1});
+  for (int st = 0; st < steps; ++st) {
+    int route = t.choose(0, 5);
+    int i = t.choose(0, n - 1);
+    Rectangle r = genObstacle(t, rows[t.choose(0, (int)rows.size() - 1)], std::max(4, rw));
+    static const char *rn[] = {"setCellX/Y", "setSolution", "setCellOrientation", "setCellIsFixed/IsObstruction", "setCellWidth/Height", "setRows"};
+    switch (route) {
+      case 0:
+        x[i] = r.minX, y[i] = r.minY;
+        c.setCellX(x), c.setCellY(y);
+        break;
+      case 1: {
+        x[i] = r.minX, y[i] = r.minY, ori[i] = (CellOrientation)t.choose(0, 7);
+        PlacementSolution sol;
+        for (int k2 = 0; k2 < n; ++k2) sol.push_back(CellPlacement(x[k2], y[k2], ori[k2]));
+        c.setSolution(sol);
+        break;
+      }
+      case 2:
+        ori[i] = (CellOrientation)t.choose(0, 7);
+        c.setCellOrientation(ori);
+        break;
+      case 3:
+        fx[i] = !fx[i];
+        if (t.flip()) ob[i] = !ob[i];
+        c.setCellIsFixed(fx), c.setCellIsObstruction(ob);
+        break;
+      case 4:
+        w[i] = std::max(0, r.maxX - r.minX), h[i] = std::max(0, r.maxY - r.minY);
+        c.setCellWidth(w), c.setCellHeight(h);
+        break;
+      default:
+        if (rows.size() > 1) rows.pop_back();
+        else rows[0] = Row(rows[0].minX, rows[0].maxX + 1, rows[0].minY, rows[0].maxY, rows[0].orientation);
+        c.setRows(rows);
+    }
+    R.classify(std::string("history:") + rn[route]);
+    std::string when = std::string("after a ") + rn[route] + " call on a circuit whose rows were computed before: ";
+    if (!judgeNow(when.c_str())) return false;
   }
   return true;
 }
